@@ -153,6 +153,7 @@ func (c *VirtualTable) Open() (sqlite.VirtualCursor, error) {
 	return &Cursor{
 		common: common,
 		ctx:    c.module.sc.ctx,
+		keyCol: c.common.KeyCol,
 	}, nil
 }
 
@@ -175,6 +176,7 @@ func (c *VirtualTable) Destroy() error {
 type Cursor struct {
 	common *s3db.Cursor
 	ctx    context.Context
+	keyCol int
 }
 
 func (c *Cursor) Next() error {
@@ -182,6 +184,16 @@ func (c *Cursor) Next() error {
 }
 
 func (c *Cursor) Column(ctx *sqlite.VirtualTableContext, i int) error {
+	if i != c.keyCol && ctx.NoChange() {
+		// The column is fetched to build the arguments of an UPDATE that does
+		// not assign it. Returning without a result makes SQLite hand xUpdate
+		// a "no change" marker, which valuesToGo leaves out; returning the
+		// stored value would turn every UPDATE into an assignment of all
+		// columns, stamped with its write time. The key column is always
+		// returned: the new key is compared with the old one to tell an
+		// UPDATE in place from a change of key.
+		return nil
+	}
 	v, err := c.common.Column(i)
 	if err != nil {
 		return toSqlite(err)
